@@ -164,3 +164,8 @@ func Param(name string, def int) int {
 func SameFloat(a, b float64) bool {
 	return (a != a && b != b) || math.Float64bits(a) == math.Float64bits(b)
 }
+
+// SoftFuel: after n more interpreted instructions the path ends benignly
+// ("still running"). Used around the execution of accepted programs, which may
+// legitimately loop; parse-time code keeps the hard fuel = termination check.
+func SoftFuel(n int) {}
